@@ -9,5 +9,5 @@ def run(c):
         'uniqueness of generated ids (stateid.platformid, session ids) rests on AtomicU32::fetch_add and is not re-proved',
     ]
     c.outside += ['more than 3 sessions; concurrent session creation', 'BasicHTTP processor (C20)']
-    c.run_m('h_c15_route', expect_checks=(1501, 1502, 1503, 1504, 1505, 1506), expect_cover=(1501,),
+    c.run_m('h_c15_route', expect_checks=(1501, 1502, 1503, 1504, 1505, 1506, 1507), expect_cover=(1501,),
             bounds={'targets': "'' #_internal #_scxml_<id> #_parent #_<invokeid>, literal and targetexpr", 'type': 'default / scxml / full URI', 'payload': 'none / param / namelist / content', 'value': 'any i64'}, diff_samples=4)
